@@ -140,6 +140,15 @@ func writeEventsOn(P *Program, fn *ssa.Function, w ssa.Value) (evs []writeEvent,
 		call, _ := ci.(*ssa.Call)
 		if cc.IsInvoke() && cc.Value == w {
 			if cc.Method.Name() == "Write" && call != nil {
+				// w.Write(binary.AppendVarint(scratch[:0], int64(v))) is the varint of v
+				if av, isAV := cc.Args[0].(*ssa.Call); isAV && av.Call.StaticCallee() != nil && qualName(av.Call.StaticCallee()) == "encoding/binary.AppendVarint" {
+					if sl, isSl := av.Call.Args[0].(*ssa.Slice); isSl && sl.Low == nil && sl.High != nil {
+						if z, isK := constInt(sl.High); isK && z == 0 {
+							evs = append(evs, writeEvent{Instr: ci, Kind: "varint", Arg: stripConv(av.Call.Args[1]), Err: errValueOfCall(call)})
+							continue
+						}
+					}
+				}
 				evs = append(evs, writeEvent{Instr: ci, Kind: "bytes", Arg: cc.Args[0], Err: errValueOfCall(call)})
 			} else {
 				unknown = append(unknown, ref)
@@ -261,7 +270,7 @@ func ruleODBlock(c *Ctx) {
 		return
 	}
 	compressed := extractOf(comp, 0)
-	compOK := len(comp.Call.Args) == 1 && comp.Call.Args[0] == ssa.Value(block) && strings.HasSuffix(accessPath(comp.Call.Value), "->compressor)")
+	compOK := len(comp.Call.Args) == 1 && comp.Call.Args[0] == ssa.Value(block) && strings.HasSuffix(accessPath(comp.Call.Value), "->"+fileWriterRoles(P).compressor+")")
 	c.Check(compOK, key+"/compress", P.pos(comp.Pos()), "payload = f.compressor.compress(block) on the block parameter", "the payload is not f.compressor.compress(block)")
 	e := ordered
 	c.Check(e[0].Kind == "varint" && e[0].Arg == ssa.Value(rowCount), key+"/write#1", P.pos(e[0].Instr.Pos()), "first write: varint(rowCount)", "the first write is not the row count as a varint")
@@ -276,7 +285,7 @@ func ruleODBlock(c *Ctx) {
 	c.Check(e[1].Kind == "varint" && compressed != nil && isLenOf(e[1].Arg, compressed), key+"/write#2", P.pos(e[1].Instr.Pos()), "second write: varint(len(compressed))", "the second write is not the length of the compressed payload (the bytes actually written) as a varint")
 	c.Check(e[2].Kind == "bytes" && e[2].Arg == ssa.Value(compressed), key+"/write#3", P.pos(e[2].Instr.Pos()), "third write: the compressed payload", "the third write is not the compressed payload")
 	syncOK := false
-	if sl, ok := e[3].Arg.(*ssa.Slice); ok && e[3].Kind == "bytes" && sl.Low == nil && sl.High == nil && strings.HasSuffix(accessPath(sl.X), "->sync") {
+	if sl, ok := e[3].Arg.(*ssa.Slice); ok && e[3].Kind == "bytes" && sl.Low == nil && sl.High == nil && strings.HasSuffix(accessPath(sl.X), "->"+fileWriterRoles(P).sync) {
 		syncOK = true
 	}
 	c.Check(syncOK, key+"/write#4", P.pos(e[3].Instr.Pos()), "fourth write: all 16 bytes of f.sync", "the fourth write is not the whole sync marker f.sync[:]")
@@ -391,7 +400,7 @@ func ruleODHdr(c *Ctx) {
 	c.Check(items[1].Kind == "varint" && isC && allStr && int(cnt) == len(pairs)/2 && cnt > 0, key+"/meta-count", P.pos(items[1].Pos),
 		fmt.Sprintf("metadata block count %d equals the %d key/value string pairs that follow", cnt, len(pairs)/2),
 		fmt.Sprintf("the metadata block count (%d) does not equal the number of key/value pairs appended (%d items)", cnt, len(pairs)))
-	want := map[string]string{"avro.schema": "->schema)", "avro.codec": "->compression)"}
+	want := map[string]string{"avro.schema": "->" + fileWriterRoles(P).schema + ")", "avro.codec": "->" + fileWriterRoles(P).compression + ")"}
 	seen := map[string]bool{}
 	if allStr {
 		for i := 0; i+1 < len(pairs); i += 2 {
@@ -410,7 +419,7 @@ func ruleODHdr(c *Ctx) {
 	z, isZ := constInt(items[n-2].Arg)
 	c.Check(items[n-2].Kind == "varint" && isZ && z == 0, key+"/meta-end", P.pos(items[n-2].Pos), "a zero count terminates the metadata map", "the metadata map is not terminated by a zero count")
 	syncOK := false
-	if sl, ok := items[n-1].Arg.(*ssa.Slice); ok && items[n-1].Kind == "bytes" && sl.Low == nil && sl.High == nil && strings.HasSuffix(accessPath(sl.X), "->sync") {
+	if sl, ok := items[n-1].Arg.(*ssa.Slice); ok && items[n-1].Kind == "bytes" && sl.Low == nil && sl.High == nil && strings.HasSuffix(accessPath(sl.X), "->"+fileWriterRoles(P).sync) {
 		syncOK = true
 	}
 	c.Check(syncOK, key+"/sync-last", P.pos(items[n-1].Pos), "the header ends with all 16 bytes of f.sync, the field WriteBlock appends to every block", "the header does not end with the whole sync marker f.sync[:]")
